@@ -8,6 +8,9 @@ src, sid, prop, needs = sys.argv[1:5]
 env = dict(os.environ, GOFLAGS='-mod=mod', GOPROXY='off')
 wt = tempfile.mkdtemp(prefix='confirm_', dir='/tmp')
 os.rmdir(wt)
+# schema/gen/go builds plugins under $TMPDIR/test-go-ipld-prime-gengo: keep that private to this run
+env['TMPDIR'] = wt + '.tmp'
+os.makedirs(env['TMPDIR'], exist_ok=True)
 def run(cmd, cwd=None, check=False):
     r = subprocess.run(cmd, shell=True, cwd=cwd, env=env, capture_output=True, text=True)
     if check and r.returncode != 0:
@@ -23,7 +26,7 @@ try:
         m = re.search(r'copy to:\s*(\S+)', first)
         pkgdir = m.group(1).rstrip('/') if m else sys.exit('demo_test.go lacks "copy to:" line')
         if pkgdir.startswith('/'):  # absolute path given by the agent: make relative to its worktree
-            pkgdir = re.sub(r'^/tmp/wt_[A-Za-z0-9]+/?', '', pkgdir)
+            pkgdir = re.sub(r'^/tmp/w[ts]_[A-Za-z0-9]+/?', '', pkgdir)
         dst = os.path.join(wt, pkgdir, 'zz_seed_demo_test.go')
         shutil.copy(demo_test, dst)
         names = re.findall(r'^func (Test\w+)\(', open(demo_test).read(), re.M)
@@ -90,4 +93,5 @@ try:
     print('CONFIRMED ->', out)
 finally:
     run(f'git -C /repo worktree remove --force {wt}')
+    shutil.rmtree(wt + '.tmp', ignore_errors=True)
     run('go clean -testcache')
